@@ -20,7 +20,15 @@ SPEC = {
                   "the probe page). Where the carriers name different stations (one CNI in the table, another not) the statement does "
                   "not say which station is 'the identified' one: there only R1-R3 and, against a twin history without the single "
                   "deviations, R4 are judged. All histories of <=4 (quick) / <=6 (thorough) receptions over a 4-value alphabet per "
-                  "carrier are enumerated. Held on the executions produced, not a proof.",
+                  "carrier are enumerated. Job zap: station changes between known stations (625 line carriers, or an XDS network name) "
+                  "that come with a time stamp discontinuity - duplicated, early, missing frames, 1 to 600 s lost, bursts of them - "
+                  "or are announced with vbi_channel_switched(), identified before or after the decoder's frame drop countdown has "
+                  "run out (receptions dense or 2-20 frames apart), also back to the station before on carriers which were silent "
+                  "meanwhile; judged when more than 43 regular frames have passed since the last discontinuity and every carrier "
+                  "has repeated: exactly one NETWORK event names the new station, at most one blank one before it and none after "
+                  "it, old probe page gone; then a steady part without NETWORK events which keeps the new probe page. Control "
+                  "phases: change with regular time stamps (one NETWORK event, blank ones count), discontinuity without a change "
+                  "(run, not judged). Held on the executions produced, not a proof.",
     "level_note": "Trusted: the encoders in harness/c13_tx.h (written from ETS 300 231, EN 300 706 9.8, EN 300 294, EIA-608; "
                   "self-tested on hand vectors and, in selftest only, against the library's decoders), the rule monitor in "
                   "harness/c13_ident.c, the station table as data, gcc ASan/UBSan. R2 is the weak reading (the value was received "
@@ -29,18 +37,42 @@ SPEC = {
                   "library (Q-shared-repeat-counter, Q-unknown-cni-revokes-identification, Q-stale-cni-of-silent-carrier) are "
                   "reported under their own keys, and only when the library's NETWORK/NETWORK_ID log, cache observations and twin "
                   "outcome of the history equal those of a reference model with exactly these deviations and the violation vanishes "
-                  "from the model when the deviation is switched off (DESIGN.md 2.5); every other violation keeps its plain key.",
+                  "from the model when the deviation is switched off (DESIGN.md 2.5); every other violation keeps its plain key. "
+                  "A fourth one, Q-identification-keeps-frame-drop-countdown (job zap only), is recognised from the log itself: "
+                  "blank NETWORK event after N1, the NETWORK event before N1 blank, a time stamp discontinuity between those two, "
+                  "and the blank event exactly on the 40th regular frame after it. The zap rules allow 0 = unknown for the CNI "
+                  "of a carrier not received since a frame drop countdown may have ended (64 frames after a discontinuity).",
     "technique": "runtime monitoring: temporal rule monitor over the event log of the real decoder driven by independent "
                  "VPS/8-30/WSS/XDS encoders; cache observed with a probe page; twin histories; quirk-parameterised reference "
-                 "model for attribution of recorded deviations only; ASan/UBSan",
+                 "model for attribution of recorded deviations only; irregular time stamps and vbi_channel_switched() at station "
+                 "changes with frame-indexed event log; ASan/UBSan",
     "rule": "hist/xds: one case = 1-4 phases (station settles, probe page, 8-60 receptions with single deviations and programme/"
             "format changes, optional station change) in one of four carrier domains (all carriers name the station / none is in "
             "the table / some send no CNI / they disagree); exh: case index = history over 16 symbols (4 carriers x 4 values). "
             "Signature = (event type, announcing carrier, same/other pattern of the 4 preceding receptions of that carrier, "
-            "carriers received in between, domain) plus (rule R4/R5, domain, deviations, carriers); trivial = no event was raised",
+            "carriers received in between, domain) plus (rule R4/R5, domain, deviations, carriers); zap: one case = 2-4 phases "
+            "(start / change with discontinuity 60 % / change with regular time stamps 15 % / discontinuity only 25 %), signature = "
+            "(kind of discontinuity, sparse, back, silent carrier, carriers, announced directly or after a revocation); "
+            "trivial = no event was raised",
     "assumptions": [
-        "timestamps advance by 1/25 s (1/29.97 s for XDS) so that the time based channel switch detector stays idle",
-        "a blank NETWORK / NETWORK_ID event (nuid 0, no CNI, no name) is a documented revocation and carries no value",
+        "jobs hist, xds, exh: timestamps advance by 1/25 s (1/29.97 s for XDS) so that the time based channel switch detector "
+        "stays idle; job zap: time stamps are irregular only at the beginning of a phase, up to and including the frame with the "
+        "first identification line of the phase (no identifier can have repeated before the last discontinuity), and regular "
+        "from there to the end of the phase",
+        "a blank NETWORK / NETWORK_ID event (nuid 0, no CNI, no name) is a documented revocation and carries no value; with "
+        "regular time stamps none is expected at a change between known stations (exactly one NETWORK event, blank ones count); "
+        "after a time stamp discontinuity or vbi_channel_switched() ('you may also receive blank events ... revoking a previously "
+        "sent event, until new information becomes available') one blank NETWORK event may precede the announcement of the new "
+        "station, whenever the library gives up waiting (about 1.5 s); a blank one after that announcement revokes the station "
+        "being received and is a violation; blank NETWORK / ASPECT events may then be raised on frames without identification lines",
+        "a time stamp discontinuity without a station change is documented to be taken for a possible channel switch "
+        "(vbi_decode()); the statement does not speak about it: such phases are run for R1-R3 and the sanitizers, their NETWORK "
+        "events and cache are not judged, and a re-announcement is not an R3 violation when a discontinuity lies between the two "
+        "announcements",
+        "the new station is judged when more than 43 regular frames have passed since the last discontinuity and every carrier "
+        "has been received three more times (the statement sets no deadline; the library's countdown is 40 frames)",
+        "job zap uses stations all of whose transmitted CNIs are in the table, XDS stations without call letters (with call "
+        "letters the order name / call letters after a reset decides the nuid, see job xds), no single deviating words",
         "a CNI of zero means that the carrier transmits no identifier (vbi_network: 'zero if unknown or not applicable')",
         "while carriers name different stations the statement does not determine the identified station: NETWORK events and "
         "station changes of such histories are not judged, only what their single deviations cause (twin history)",
@@ -58,5 +90,10 @@ SPEC = {
                      "ev_prog_id_8302": 2000000, "ev_local_time": 2000000, "ev_aspect": 100000, "single_deviations": 500000,
                      "steady_windows": 200000, "steady_windows_judged_against_twin": 20000, "twin_histories": 10000,
                      "station_changes_known_to_known": 40000, "station_changes_xds": 30000, "probe_pages": 400000,
-                     "hamming_single_bit_errors": 300000},
+                     "hamming_single_bit_errors": 300000,
+                     "time_gaps": 60000, "vbi_channel_switched_calls": 10000, "station_changes_with_time_gap": 50000,
+                     "station_changes_with_time_gap_identified_before_revocation": 30000,
+                     "station_changes_with_time_gap_identified_after_revocation": 10000,
+                     "station_changes_with_time_gap_back_on_a_carrier_silent_meanwhile": 1000,
+                     "time_gaps_without_station_change": 15000, "ev_network_blank_after_time_gap": 30000},
 }
